@@ -443,10 +443,18 @@ func init() {
 			return e.tt.True
 		},
 		// ---- unicode predicates (exact tables, see preamble) ----
-		"unicode.IsSpace":  func(e *Engine, caller *frame, fn *ssa.Function, args []Value) Value { return e.uniPred("IsSpace", args[0].(*Term)) },
-		"unicode.IsDigit":  func(e *Engine, caller *frame, fn *ssa.Function, args []Value) Value { return e.uniPred("IsDigit", args[0].(*Term)) },
-		"unicode.IsLetter": func(e *Engine, caller *frame, fn *ssa.Function, args []Value) Value { return e.uniPred("IsLetter", args[0].(*Term)) },
-		"unicode.IsUpper":  func(e *Engine, caller *frame, fn *ssa.Function, args []Value) Value { return e.uniPred("IsUpper", args[0].(*Term)) },
+		"unicode.IsSpace": func(e *Engine, caller *frame, fn *ssa.Function, args []Value) Value {
+			return e.uniPred("IsSpace", args[0].(*Term))
+		},
+		"unicode.IsDigit": func(e *Engine, caller *frame, fn *ssa.Function, args []Value) Value {
+			return e.uniPred("IsDigit", args[0].(*Term))
+		},
+		"unicode.IsLetter": func(e *Engine, caller *frame, fn *ssa.Function, args []Value) Value {
+			return e.uniPred("IsLetter", args[0].(*Term))
+		},
+		"unicode.IsUpper": func(e *Engine, caller *frame, fn *ssa.Function, args []Value) Value {
+			return e.uniPred("IsUpper", args[0].(*Term))
+		},
 		"unicode.ToLower": func(e *Engine, caller *frame, fn *ssa.Function, args []Value) Value {
 			r := args[0].(*Term)
 			if r.IsConst() {
@@ -513,13 +521,13 @@ func init() {
 			return Tuple{e.tt.IntConst(0, 64), Iface{}}
 		},
 		// ---- math ----
-		"math.Floor": f64fn(func(e *Engine, x *Term) *Term { return e.tt.FRound(x, RTN) }),
-		"math.Ceil":  f64fn(func(e *Engine, x *Term) *Term { return e.tt.FRound(x, RTP) }),
-		"math.Trunc": f64fn(func(e *Engine, x *Term) *Term { return e.tt.FRound(x, RTZ) }),
-		"math.Round": f64fn(func(e *Engine, x *Term) *Term { return e.tt.FRound(x, RNA) }),
+		"math.Floor":       f64fn(func(e *Engine, x *Term) *Term { return e.tt.FRound(x, RTN) }),
+		"math.Ceil":        f64fn(func(e *Engine, x *Term) *Term { return e.tt.FRound(x, RTP) }),
+		"math.Trunc":       f64fn(func(e *Engine, x *Term) *Term { return e.tt.FRound(x, RTZ) }),
+		"math.Round":       f64fn(func(e *Engine, x *Term) *Term { return e.tt.FRound(x, RNA) }),
 		"math.RoundToEven": f64fn(func(e *Engine, x *Term) *Term { return e.tt.FRound(x, RNE) }),
-		"math.Abs":   f64fn(func(e *Engine, x *Term) *Term { return e.tt.FAbs(x) }),
-		"math.IsNaN": f64fn(func(e *Engine, x *Term) *Term { return e.tt.FIsNaN(x) }),
+		"math.Abs":         f64fn(func(e *Engine, x *Term) *Term { return e.tt.FAbs(x) }),
+		"math.IsNaN":       f64fn(func(e *Engine, x *Term) *Term { return e.tt.FIsNaN(x) }),
 		"math.IsInf": func(e *Engine, caller *frame, fn *ssa.Function, args []Value) Value {
 			x := args[0].(*Term)
 			sign := concreteIntArg(e, args[1], "math.IsInf sign")
@@ -771,6 +779,27 @@ var uniPreds = map[string][]*unicode.RangeTable{
 	"IsTitle":  {unicode.Title},
 }
 
+// latin1Ranges: [lo,hi] pairs below U+0100, computed from the real predicates at start-up.
+var latin1Ranges = map[string][]int{}
+
+func init() {
+	for name, f := range uniNative {
+		var rs []int
+		start := -1
+		for c := 0; c <= 256; c++ {
+			in := c < 256 && f(rune(c))
+			if in && start < 0 {
+				start = c
+			}
+			if !in && start >= 0 {
+				rs = append(rs, start, c-1)
+				start = -1
+			}
+		}
+		latin1Ranges[name] = rs
+	}
+}
+
 var uniNative = map[string]func(rune) bool{
 	"IsSpace":  unicode.IsSpace,
 	"IsDigit":  unicode.IsDigit,
@@ -791,6 +820,21 @@ func (e *Engine) uniPred(name string, r *Term) *Term {
 	if r.IsConst() {
 		return e.tt.Bool(uniNative[name](rune(r.Int())))
 	}
-	// fast exact forms for the common ASCII question keep terms small
+	// a rune that is the zero-extension of one byte is below U+0100: use the exact Latin-1 ranges
+	if r.Op == OZExt && r.Args[0].Sort.W == 8 {
+		if rs, ok := latin1Ranges[name]; ok {
+			b := r.Args[0]
+			tt := e.tt
+			c := tt.False
+			for i := 0; i+1 < len(rs); i += 2 {
+				if rs[i] == rs[i+1] {
+					c = tt.Or(c, tt.Eq(b, tt.BVConst(uint64(rs[i]), 8)))
+				} else {
+					c = tt.Or(c, tt.And(tt.ULe(tt.BVConst(uint64(rs[i]), 8), b), tt.ULe(b, tt.BVConst(uint64(rs[i+1]), 8))))
+				}
+			}
+			return c
+		}
+	}
 	return e.tt.App("unicode."+name, BoolSort, r)
 }
